@@ -263,7 +263,7 @@ fn field_values(cl: &Class, f: &FieldDef, thorough: bool) -> Vec<i64> {
                 return v;
             }
             let mut v = vec![0, 1, 2, 3, 255, 256, 257];
-            if thorough { if f.bits == 16 { v.extend([65535, 65536, 65537]); } else { v.push(65536); } }
+            if thorough && heavy_allowed(cl.name, &f.name) { if f.bits == 16 { v.extend([65535, 65536, 65537]); } else { v.push(65536); } }
             v
         },
         FK::FixedStr => { let cap = (f.bits / 8) as i64; vec![0, 1, cap - 2, cap - 1, cap, cap + 1, 2 * cap - 1, 2 * cap, 300] },
@@ -275,8 +275,18 @@ fn field_values(cl: &Class, f: &FieldDef, thorough: bool) -> Vec<i64> {
         FK::Diff => vec![0, 1, 0x0f, 0x80, 0xf0, 0xff],
         FK::Layout => vec![8, 9, 16, 17, 18, 19, 24, 25, 26, 27, 28, 29, 30, 31],
         FK::Bool => vec![0, 1],
-        FK::TableLen => { let mut v = vec![0, 1, 2, 3, 4, 255, 256]; if thorough { v.push(65536); } v },
+        FK::TableLen => { let mut v = vec![0, 1, 2, 3, 4, 255, 256]; if thorough && heavy_allowed(cl.name, &f.name) { v.push(65536); } v },
     }
+}
+
+/// The 65535..65537-item cases cost 20-60 s and up to 1 GB each: they are run for one representative class
+/// per distinct writer code path (the other classes of the same container share that code).
+fn heavy_allowed(class: &str, field: &str) -> bool {
+    matches!((class, field),
+        ("anm-v7", "n_sprites") | ("anm-v7", "n_scripts") | ("anm-v2", "n_sprites") | ("anm-v2", "n_scripts")
+        | ("std-10", "n_objects") | ("std-10", "n_quads") | ("std-10", "n_instances")
+        | ("ecl-06", "n_subs") | ("ecl-07", "n_subs") | ("ecl-09", "n_timelines")
+        | ("msg-09", "n_entries") | ("msg-09", "table_len") | ("mission-125", "n_entries"))
 }
 
 /// reduced value set for D = 2
@@ -915,7 +925,13 @@ fn compare(wants: &[(String, Want)], p: &Probed, corrupt: Option<&str>) -> (u64,
     let mut mm: Vec<Mismatch> = vec![];
     let mut no_slot = vec![];
     let mut push = |m: Mismatch| { if mm.len() < 12 { mm.push(m); } else if mm.len() == 12 { mm.push(Mismatch { key: "...".into(), requested: "(more)".into(), stored: "".into() }); } };
-    for (key, want) in wants {
+    // header-level fields first, per-instruction fields second: the first mismatch reported is then the most telling one
+    let is_instr_key = |k: &str| k.split('.').any(|seg| seg.len() > 1 && seg.starts_with('i') && seg[1..].chars().all(|c| c.is_ascii_digit()));
+    let is_count_key = |k: &str| { let last = k.rsplit('.').next().unwrap_or(k); last.starts_with("num_") || last.starts_with("n_") || last == "table_len" };
+    let ordered = wants.iter().filter(|w| is_count_key(&w.0))
+        .chain(wants.iter().filter(|w| !is_count_key(&w.0) && !is_instr_key(&w.0)))
+        .chain(wants.iter().filter(|w| !is_count_key(&w.0) && is_instr_key(&w.0)));
+    for (key, want) in ordered {
         let pkey = key.split('#').next().unwrap();
         match want {
             Want::NoSlot(v) => { if *v != 0 { no_slot.push(format!("{key}={v}")); } continue; },
@@ -1066,12 +1082,31 @@ fn run_case(cl: &Class, devs: &[Dev], corrupt: Option<&str>) -> CaseResult {
 // =============================================================================================
 // the run
 
+const HEAVY_THREADS: usize = 6;
+
+/// like `par_map` but with a caller-chosen number of workers (for the memory-hungry cases)
+fn small_pool<T: Sync, R: Send>(items: &[T], threads: usize, deadline: std::time::Instant, f: &(dyn Fn(&T) -> R + Sync)) -> Vec<Option<R>> {
+    let next = std::sync::atomic::AtomicUsize::new(0);
+    let results: std::sync::Mutex<Vec<Option<R>>> = std::sync::Mutex::new((0..items.len()).map(|_| None).collect());
+    std::thread::scope(|s| {
+        for _ in 0..threads.min(items.len()) {
+            std::thread::Builder::new().stack_size(64 << 20).spawn_scoped(s, || loop {
+                let i = next.fetch_add(1, std::sync::atomic::Ordering::Relaxed);
+                if i >= items.len() || std::time::Instant::now() > deadline { break; }
+                let r = f(&items[i]);
+                results.lock().unwrap()[i] = Some(r);
+            }).expect("spawn");
+        }
+    });
+    results.into_inner().unwrap()
+}
+
 #[derive(Debug, Clone)]
 struct Item { class: usize, devs: Vec<Dev>, nontrivial: bool, strictly_fitting: bool, heavy: bool, pair: bool }
 
 fn corrupt_target() -> Option<(&'static str, &'static str, i64, &'static str)> {
     // (class, deviating field, value, want key whose requested value is perturbed)
-    if std::env::var("VERIF_C03_SELFTEST_CORRUPT").map(|v| v == "1").unwrap_or(false) { Some(("std-10", "layer", 1, "o0.layer")) } else { None }
+    if std::env::var("VERIF_C03_SELFTEST_CORRUPT").map(|v| v == "1").unwrap_or(false) { Some(("std-10", "unknown", 1, "unknown")) } else { None }
 }
 
 fn witness_detail(cl: &Class, devs: &[Dev], res: &CaseResult, human: &str) -> Value {
@@ -1108,15 +1143,25 @@ pub fn run(tier: &str) -> Report {
             }
         }
     }
-    // heavy cases first (they overlap with the many cheap ones)
-    items.sort_by_key(|i| !i.heavy);
+    // heavy cases last in the list; they run on their own small pool (bounded memory) while the cheap ones run on par_map
+    items.sort_by_key(|i| i.heavy);
     let n_single = items.len();
+    let n_light = items.iter().filter(|i| !i.heavy).count();
     let deadline = rep.deadline();
-    let results = par_map(&items, Some(deadline), |_, it| {
+    let run_item = |it: &Item| {
         let cl = &cls[it.class];
         let c = corrupt.and_then(|(cn, f, v, key)| (cl.name == cn && it.devs.len() == 1 && it.devs[0].field == f && it.devs[0].value == v).then_some(key));
         run_case(cl, &it.devs, c)
+    };
+    let (light_items, heavy_items) = items.split_at(n_light);
+    let mut results: Vec<Option<CaseResult>> = vec![];
+    let mut heavy_results: Vec<Option<CaseResult>> = vec![];
+    std::thread::scope(|s| {
+        let h = std::thread::Builder::new().spawn_scoped(s, || small_pool(heavy_items, HEAVY_THREADS, deadline, &run_item)).expect("spawn");
+        results = par_map(light_items, Some(deadline), |_, it| run_item(it));
+        heavy_results = h.join().expect("heavy pool");
     });
+    results.extend(heavy_results);
 
     // ---- D = 2 (thorough): pairs of fields, reduced value sets; only interactions are reported
     let mut single_fail: BTreeSet<(usize, String, i64)> = BTreeSet::new();
@@ -1134,6 +1179,8 @@ pub fn run(tier: &str) -> Report {
                 for fb in cl.fields.iter().skip(ia + 1) {
                     for va in pair_values(cl, fa) {
                         for vb in pair_values(cl, fb) {
+                            // has_data: "dummy" makes truth allocate width*height*bpp bytes: 65536 x 65536 is 8 GB
+                            if fa.name.starts_with("img_") && fb.name.starts_with("img_") && va.saturating_mul(vb) > (1 << 23) { rep.discard("dummy image larger than 8M pixels (resource exhaustion is not C03's subject)"); continue; }
                             pair_items.push(Item {
                                 class: ci, devs: vec![Dev { field: fa.name.clone(), value: va }, Dev { field: fb.name.clone(), value: vb }],
                                 nontrivial: is_nontrivial(cl, fa, va) || is_nontrivial(cl, fb, vb), strictly_fitting: false, heavy: false, pair: true,
@@ -1141,6 +1188,14 @@ pub fn run(tier: &str) -> Report {
                         }
                     }
                 }
+            }
+        }
+    }
+    if thorough {
+        // the one known two-field collision: a TH06/TH07 timeline instruction with time -1 and arg0 4 IS the terminator
+        for (ci, cl) in cls.iter().enumerate() {
+            if cl.scripts.iter().any(|s| s.has_arg0) {
+                pair_items.push(Item { class: ci, devs: vec![Dev { field: "tl.time".into(), value: -1 }, Dev { field: "tl.arg0".into(), value: 4 }], nontrivial: false, strictly_fitting: true, heavy: false, pair: true });
             }
         }
     }
@@ -1223,7 +1278,7 @@ pub fn run(tier: &str) -> Report {
     rep.extra.insert("fields_without_a_slot".into(), json!(no_slot_seen));
     rep.extra.insert("per_class_cases_and_comparisons".into(), json!(per_class.iter().map(|(k, v)| json!({"class": k, "cases": v.0, "field_comparisons": v.1})).collect::<Vec<_>>()));
     rep.extra.insert("classes".into(), json!(cls.iter().map(|c| json!({"class": c.name, "game": c.game.as_str(), "fields": c.fields.iter().map(|f| format!("{}:{}", f.name, f.bits)).collect::<Vec<_>>()})).collect::<Vec<_>>()));
-    if corrupt.is_some() { rep.extra.insert("selftest_corrupt".into(), json!("VERIF_C03_SELFTEST_CORRUPT=1: the requested value of std-10 o0.layer was perturbed in the comparison of the case layer=1")); }
+    if corrupt.is_some() { rep.extra.insert("selftest_corrupt".into(), json!("VERIF_C03_SELFTEST_CORRUPT=1: the requested value of std-10 header `unknown` was perturbed (+1) in the comparison of the case unknown=1")); }
 
     if not_run > 0 { rep.cap_hit = Some(format!("wall-clock cap: {not_run} of {} cases not run", n_single + pair_items.len())); }
     rep.exhaustive = not_run == 0;
